@@ -474,6 +474,23 @@ impl Module for M {
                     }
                 }
             }
+            // "leaf" shapes: two large, diagonally opposite corners whose boxes overlap deeply, so that a point can lie
+            // in the box of a left AND of a right corner (`contains` must test both: /repo fix 25969cf; seeded change
+            // C06-r3-1 reverted it: such points are in the areas but never painted)
+            for &(w, h) in [(30u32, 20u32), (24, 24), (12, 9), (9, 14)].iter() {
+                for diag in 0..2usize {
+                    let big = (w - 2, h - 2);
+                    let mut r = [(0u32, 0u32); 4];
+                    r[diag] = big; // top_left or top_right
+                    r[diag + 2] = big; // bottom_right or bottom_left
+                    let g = format!("-3 2 {} {} {}", w, h, radii_toks(&r));
+                    for (width, a) in [(0u32, 0u32), (1, 0), (2, 1), (3, 2)] {
+                        emit(format!("rrect.areas {} {} {}", g, width, a));
+                        emit(format!("rrect.styled {} 7 9 {} {} -8 -8 80 80", g, width, a));
+                        emit(format!("rrect.styled {} 7 - {} {} -8 -8 80 80", g, width, a));
+                    }
+                }
+            }
             // fill area inside stroke area: many random geometries with wild (oversized, unequal) radii
             let n = if quick { 6000 } else { 60_000 };
             for _ in 0..n {
